@@ -106,6 +106,39 @@ def run(ctx):
             if not ok:
                 ctx.report(f"a token signed by joserfc is rejected by the independent implementation given the exported public JWK ({why})",
                            {"alg": alg, "kind": kind, "key": label, "jwk": public_jwk}, f"interop:exported-jwk:{kind}:{why.split(':')[0]}")
+    # ---------------- (a') several signers in one general JSON object: each entry is signed over ITS OWN protected segment
+    # (the empty string for a signer with an unprotected header only), whatever the neighbours look like
+    from joserfc.jwk import KeySet
+    signers = [("ES256", "p256"), ("HS256", "oct32"), ("EdDSA", "ed25519"), ("RS256", "rsa2048"), ("ES384", "p384"), ("HS512", "oct64")]
+    for _ in range(6 if ctx.tier == "quick" else 60):
+        chosen = rng.sample(signers, rng.randrange(2, 5))
+        members, privs, pubs = [], [], []
+        for i, (alg, kn) in enumerate(chosen):
+            kid = f"signer-{i}"
+            shape = rng.choice(["protected", "unprotected", "both", "protected-empty-header"])
+            if shape == "protected":
+                m = {"protected": {"alg": alg, "kid": kid}}
+            elif shape == "unprotected":
+                m = {"header": {"alg": alg, "kid": kid}}
+            elif shape == "both":
+                m = {"protected": {"alg": alg}, "header": {"kid": kid, "cty": f"note-{i}"}}
+            else:
+                m = {"protected": {"alg": alg, "kid": kid, "typ": "JOSE"}, "header": {}}
+            members.append(m)
+            privs.append(K.key(kn, private=True, kid=kid))
+            pubs.append(K.key(kn, private=False if not kn.startswith("oct") else True, kid=kid))
+        payload = rng.choice([b"several signers", b"", b"\x00\xff"])
+        shapes = [("P" if "protected" in m else "") + ("H" if m.get("header") else "") for m in members]
+        try:
+            value = jws.serialize_json(copy.deepcopy(members), payload, KeySet(privs), algorithms=J.ALL_ALGS)
+        except Exception as e:  # noqa: BLE001
+            ctx.report(f"serialize_json for {len(members)} signers failed: {err_name(e)}", {"members": members}, "multi-signer:sign-failed")
+            continue
+        ctx.count("multi-signer-ref-verifies", (repr(members), payload), True, "+".join(shapes))
+        ok, got_payload, _, why = J.ref_accepts(J.VCase("general", value, KeySet(pubs)))
+        if not ok or got_payload != payload:
+            ctx.report(f"a general JSON JWS signed by joserfc for {len(members)} signers (member shapes {shapes}) is rejected by the independent verifier ({why})",
+                       {"members": members, "payload": payload.hex(), "value": value}, "interop:multi-signer")
     # ---------------- (b) reference -> joserfc (and the model), arbitrary header spellings
     cases = []
     for _ in range(rounds):
